@@ -1,4 +1,5 @@
 import json
+import re
 """Rules added after the independent seeded changes showed which structural necessary conditions the
 first set missed (DESIGN §8).  Each is a condition whose violation breaks behaviour; none matches text."""
 from oracle import defs as D
@@ -3050,7 +3051,7 @@ def rule_lossy_only_removes_work(col, facts):
     scaling and the error units rest - must not depend on the flag."""
     R = "WHO-lossy"
     n = 0
-    for nm in ("binary::binary", "bellerophon::bellerophon", "lemire::lemire", "lemire::compute_float"):
+    for nm in ("binary::binary", "bellerophon::bellerophon", "lemire::lemire", "lemire::compute_float", "parse::moderate_path"):
         f = facts.fn(PF + nm, required=False)
         if f is None:
             continue
@@ -3194,3 +3195,124 @@ def rule_bound_sums_saturate(col, facts):
     sat = sum(1 for bb, c, a, d, t in f.calls() if last_seg(callee_name(c)) in ("saturating_add", "checked_add") and any(user_controlled(op_expr(f, x)) for x in a))
     col.check(R, "buffer_size_const:option-derived-terms-saturate", bad == 0 and sat >= 2,
               "%d plain `+` of a quantity derived from min_significant_digits / the exponent breaks (total additions: %d): min_significant_digits(usize::MAX) overflows the bound (debug panic, wrapped bound in release)" % (bad, sat), where)
+
+
+# =================================================================================================
+# Round-5 block
+# =================================================================================================
+def rule_disguised_fast_path_checked(col, facts):
+    """GRD-fast (disguised fast path): for exponents just above the exact range the mantissa is first multiplied by
+    a small integer power; the product is compared with MAX_MANTISSA_FAST_PATH afterwards, which only sees its low
+    64 bits - so the multiplication itself must be checked (overflow => no fast path).  A wrapping product that
+    happens to land below the limit is accepted: `5006865757753848e37` parsed as 3.1e37."""
+    R = "GRD-fast"
+    f = facts.fn(PF + "number::Number::try_fast_path")
+    checked = wrapping = 0
+    for bb, c, a, d, t in f.calls():
+        cn = last_seg(callee_name(c))
+        e0 = show(op_expr(f, a[0])) if a else ""
+        if cn in ("checked_mul", "overflowing_mul") and len(a) == 2:
+            checked += 1
+        if cn in ("wrapping_mul", "unchecked_mul") and len(a) == 2 and ("int_pow_fast_path" in show(op_expr(f, a[1])) or "int_pow_fast_path" in e0):
+            wrapping += 1
+    col.check(R, "try_fast_path:checked-product", checked >= 1 and wrapping == 0,
+              "the disguised fast path multiplies the mantissa by int_pow_fast_path(..) with %d checked and %d wrapping multiplication(s): an overflowing product is not rejected by the later comparison with MAX_MANTISSA_FAST_PATH" % (checked, wrapping), f.loc())
+
+
+def rule_compact_scratch_size(col, facts):
+    """TBL-size (compact integer writer): the digits are generated backwards into a stack array before being copied
+    out; the widest numeral is 128 binary digits (`assert!(BITS <= 128)` is all that bounds the type), so the array
+    must have at least 128 elements - with 64, u128 values >= 2^64 in radix 2 / 3 index out of bounds."""
+    if not facts.config.startswith("compact"):
+        return
+    R = "TBL-size"
+    f = facts.fn("lexical_write_integer::compact::Compact::compact", required=False)
+    if f is None:
+        raise AnchorMissing("Compact::compact not found")
+    sizes = []
+    for ty in f.mir.get("locals", []):
+        m = re.match(r"^\[u8; (\d+)(?:_usize)?\]$", ty.strip())
+        if m:
+            sizes.append(int(m.group(1)))
+    col.check(R, "compact:scratch-digits", bool(sizes) and min(sizes) >= 128,
+              "the compact writer's scratch array has %s elements; a 128-bit value has up to 128 digits in radix 2" % (sizes or "no [u8; N]"), f.loc())
+
+
+def rule_round_up_stores_digits(col, facts):
+    """ORG-digit (round_up): the carry helper re-encodes an incremented digit; what it stores into the digit buffer
+    must be a literal (`'1'`, `'0'`) or come from digit_to_char_const - arithmetic on the *character* (`c + 1`)
+    is right for '0'..'8' and 'A'..'Y' only: in radix 12 the digit after '9' is 'A', not ':'."""
+    R = "ORG-digit"
+    f = facts.fn(WF + "shared::round_up")
+    n = bad = 0
+    where = f.loc()
+    for i, b in enumerate(f.blocks):
+        if not f.live(i):
+            continue
+        for st in b["s"]:
+            if st[0] == "=" and st[1][1] and any(isinstance(p, list) and p and p[0] == "idx" or p == "idx" or (isinstance(p, tuple)) for p in st[1][1]) or (st[0] == "=" and st[1][1] and "idx" in json.dumps(st[1][1])):
+                n += 1
+                e = strip_casts(rvalue_expr(f, st[2], 0))
+                ok = e[0] == "k" or (e[0] == "call" and last_seg(e[1]) in ("digit_to_char_const", "digit_to_char")) or (e[0] == "var")
+                if e[0] == "var":
+                    ok = all(rv[0] == "call" and last_seg(callee_name(rv[1])) in ("digit_to_char_const", "digit_to_char") or (rv[0] == "use" and rv[1][0] == "k") for _b, _j, rv, pr in f.defs().get(e[1], []) if not pr)
+                if not ok:
+                    bad += 1
+                    where = f.loc(st[3])
+    col.check(R, "round_up:stored-byte-origin", n >= 1 and bad == 0,
+              "%d of %d bytes stored into the digit buffer are computed from the character itself instead of digit_to_char_const: wrong for the digit after '9' in any radix above 10" % (bad, n), where)
+
+
+def rule_special_tried_on_every_error(col, facts):
+    """MPT-special (float entry points): a non-numeric input is a special value exactly when it equals one of the
+    configured strings - whatever error the numeric parser stopped with and wherever it stopped (`inf` in radix
+    20 stops after the digit `i`).  Every `return Err(e)` that hands back the numeric parser's error must come
+    after the special parser was tried: the block is dominated by a parse_special / parse_partial_special call."""
+    R = "MPT-special"
+    n = 0
+    for name in ("parse_complete", "fast_path_complete", "parse_partial", "fast_path_partial"):
+        f = facts.fn(PF + "parse::" + name)
+        sp = [bb for bb, c, a, d, t in f.calls() if last_seg(callee_name(c)) in ("parse_special", "parse_partial_special")]
+        num = [d[0] for bb, c, a, d, t in f.calls() if last_seg(callee_name(c)) in ("parse_complete_number", "parse_partial_number", "parse_number") and d and not d[1]]
+        col.check(R, "%s:calls" % name, bool(sp) and bool(num), "special / numeric parser call not found", f.loc())
+        bad = 0
+        where = f.loc()
+        for i, b in enumerate(f.blocks):
+            if not f.live(i):
+                continue
+            for st in b["s"]:
+                if st[0] == "=" and st[1] == [0, []] and st[2][0] == "agg" and st[2][1][0] == "adt" and st[2][1][3] == "Err":
+                    e = strip_casts(op_expr(f, st[2][2][0]))
+                    # the error value comes out of the numeric parser's result
+                    if any(c[0] == "call" and len(c) > 3 and c[3] in num for c in expr_calls(e)):
+                        n += 1
+                        if not any(f.dominates(s_, i) for s_ in sp):
+                            bad += 1
+                            where = f.loc(st[3])
+        col.check(R, "%s:error-only-after-special" % name, bad == 0,
+                  "%d return(s) of the numeric parser's error are taken without the special parser having been tried: an input equal to a configured special string is rejected when the number parser consumed part of it (radix 20 `inf`)" % bad, where)
+    col.floor(R, "returns of the numeric parser's error", n, 4)
+
+
+def rule_default_flags_exact(col, facts):
+    """KEY-constraints (without `format`): the only syntax flags a build without the `format` feature implements are
+    the STANDARD ones, so a packed format is valid only if its flag bits *equal* them - the comparison in
+    not_feature_format::format_error_impl must be an (in)equality between `format & FLAG_MASK` and the default
+    flags, not a subset test: a format lacking REQUIRED_EXPONENT_DIGITS would be reported valid and then parsed as
+    if it had it."""
+    if "format" in facts.config:
+        return
+    R = "KEY-constraints"
+    f = facts.fn("lexical_util::not_feature_format::format_error_impl")
+    ok = False
+    for i, b in enumerate(f.blocks):
+        if not f.live(i) or b["t"]["k"] != "switch":
+            continue
+        e = strip_casts(op_expr(f, b["t"]["d"]))
+        if e[0] == "bin" and e[1] in ("Ne", "Eq"):
+            l, r = strip_casts(e[2]), strip_casts(e[3])
+            for x, y in ((l, r), (r, l)):
+                if x[0] == "bin" and x[1] == "BitAnd" and "FLAG_MASK" in show(x) and "Not" not in show(x) and y != ("k", 0) and "REQUIRED" in show(y):
+                    ok = True
+    col.check(R, "not_feature_format:flags-equal-defaults", ok,
+              "format_error_impl no longer compares `format & FLAG_MASK` with the default flags for equality: a format missing one of the STANDARD flags (or carrying only a subset) is reported valid although this build cannot honour it", f.loc())
